@@ -701,6 +701,8 @@ func runC16(a vh.Args, o *vh.Oracle, r *vh.Result) error {
 			return c16S3(a, o, r, &c)
 		case "sftpprune":
 			return c16SFTP(a, o, r, &c)
+		case "prune-cli-indexes":
+			return c16PruneIndexes(a, r, &c)
 		case "verify-stress":
 			return c16Stress(a, r, &c)
 		case "sftp-temp":
@@ -745,6 +747,9 @@ func runC16(a vh.Args, o *vh.Oracle, r *vh.Result) error {
 		return err
 	}
 	if err := c16SFTPAll(a, o, r, rng); err != nil {
+		return err
+	}
+	if err := c16PruneIndexesAll(a, r, rng); err != nil {
 		return err
 	}
 	return c16StressAll(a, r, rng)
